@@ -970,3 +970,155 @@ Proof.
   repeat (doi_step H; try solve [left; reflexivity | right; reflexivity
                                 | right; eapply string_to_number_err; eassumption]).
 Qed.
+
+(* ---- PEM framing (base64 opaque) ------------------------------------------------------------------- *)
+
+Lemma split_nl_aux_line l : forall rest cur, ~ In nl l ->
+  split_nl_aux (l ++ nl :: rest) cur = (rev cur ++ l) :: split_nl_aux rest [].
+Proof.
+  induction l as [|c l IH]; intros rest cur H.
+  - cbn [app split_nl_aux]. rewrite byte_eqb_refl, app_nil_r. reflexivity.
+  - cbn [app split_nl_aux].
+    assert (Hc : byte_eqb c nl = false) by (apply byte_eqb_neq; intro E; apply H; left; auto).
+    rewrite Hc. rewrite IH by (intro X; apply H; right; exact X).
+    cbn [rev]. rewrite <- app_assoc. reflexivity.
+Qed.
+
+Lemma split_nl_aux_last l : forall cur, ~ In nl l -> split_nl_aux l cur = [rev cur ++ l].
+Proof.
+  induction l as [|c l IH]; intros cur H.
+  - cbn. rewrite app_nil_r. reflexivity.
+  - cbn [split_nl_aux].
+    assert (Hc : byte_eqb c nl = false) by (apply byte_eqb_neq; intro E; apply H; left; auto).
+    rewrite Hc, IH by (intro X; apply H; right; exact X). cbn [rev]. rewrite <- app_assoc. reflexivity.
+Qed.
+
+Lemma split_nl_lines chs rest : Forall (fun l => ~ In nl l) chs ->
+  split_nl (concat (map (fun l => l ++ [nl]) chs) ++ rest) = chs ++ split_nl rest.
+Proof.
+  induction chs as [|c chs IH]; intro H; [reflexivity|].
+  inversion H as [|? ? Hc Hr]; subst. cbn [map concat]. rewrite <- !app_assoc. cbn [app].
+  unfold split_nl at 1. rewrite split_nl_aux_line by exact Hc. cbn [rev app].
+  fold (split_nl (concat (map (fun l => l ++ [nl]) chs) ++ rest)). rewrite IH by exact Hr. reflexivity.
+Qed.
+
+Lemma chunks_concat f : forall n s, 1 <= n -> (length s <= f)%nat -> concat (chunks f n s) = s.
+Proof.
+  induction f as [|f IH]; intros n s Hn Hl.
+  - destruct s; [reflexivity | cbn in Hl; lia].
+  - destruct s as [|c s']; [reflexivity|]. cbn [chunks concat].
+    rewrite IH; [apply takeN_dropN | exact Hn |].
+    pose proof (dropN_blen n (c :: s')) as B. unfold blen in B. cbn [length] in *. lia.
+Qed.
+
+Lemma chunks_forall (P : byte -> Prop) f : forall n s, 1 <= n -> Forall P s ->
+  Forall (fun c => c <> [] /\ Forall P c) (chunks f n s).
+Proof.
+  induction f as [|f IH]; intros n s Hn HP; [constructor|].
+  destruct s as [|c s']; [constructor|]. cbn [chunks].
+  pose proof (takeN_dropN n (c :: s')) as TD. rewrite <- TD in HP. apply Forall_app in HP.
+  destruct HP as [HP1 HP2]. constructor.
+  - split; [|exact HP1]. intro E.
+    pose proof (takeN_blen n (c :: s')) as B. rewrite E in B. rewrite blen_cons in B.
+    change (blen (@nil byte)) with 0 in B. lia.
+  - apply IH; assumption.
+Qed.
+
+Lemma lstrip_id l : (forall b t, l = b :: t -> is_ws b = false) -> lstrip l = l.
+Proof. destruct l as [|b t]; [reflexivity|]. intro H. cbn [lstrip]. rewrite (H b t eq_refl). reflexivity. Qed.
+
+Lemma strip_id l : Forall (fun b => is_ws b = false) l -> strip l = l.
+Proof.
+  intro H. unfold strip.
+  rewrite (lstrip_id l) by (intros b t E; subst; inversion H; assumption).
+  rewrite lstrip_id; [apply rev_involutive|].
+  intros b t E. apply Forall_rev in H. rewrite E in H. inversion H; assumption.
+Qed.
+
+Definition b64char (c : byte) : Prop := c <> nl /\ is_ws c = false /\ c <> dash.
+
+Definition pem_keep (l : bytes) : bool :=
+  match l with [] => false | _ :: _ => negb (starts_with dashes5 l) end.
+
+Lemma pem_keep_chunks chs : Forall (fun c => c <> [] /\ Forall b64char c) chs -> filter pem_keep chs = chs.
+Proof.
+  induction chs as [|c cs IH]; intro HF; [reflexivity|].
+  inversion HF as [|? ? [Hne Hc] Hr]; subst. cbn [filter].
+  destruct c as [|h t]; [contradiction|].
+  inversion Hc as [|? ? [_ [_ Hd]] _]; subst.
+  assert (E : byte_eqb dash h = false) by (apply byte_eqb_neq; intro X; apply Hd; symmetry; exact X).
+  unfold pem_keep at 1. cbn [dashes5 starts_with]. rewrite E. cbn [andb negb]. f_equal. apply IH. exact Hr.
+Qed.
+
+Lemma map_strip_chunks chs : Forall (fun c => c <> [] /\ Forall b64char c) chs -> map strip chs = chs.
+Proof.
+  induction chs as [|c cs IH]; intro HF; [reflexivity|].
+  inversion HF as [|? ? [_ Hc] Hr]; subst. cbn [map]. f_equal; [|apply IH; exact Hr].
+  apply strip_id. eapply Forall_impl; [|exact Hc]. intros b [_ [Hw _]]. exact Hw.
+Qed.
+
+Lemma no_nl_label pre name : ~ In nl pre -> ~ In nl name -> ~ In nl (dashes5 ++ pre ++ name ++ dashes5).
+Proof.
+  intros Hp Hn X. rewrite !in_app_iff in X. destruct X as [X|[X|[X|X]]]; try contradiction;
+    cbn in X; repeat (destruct X as [X|X]; [discriminate|]); exact X.
+Qed.
+
+Section PemProof.
+  Variable b64encode : bytes -> bytes.
+  Variable b64decode : bytes -> result bytes.
+
+  (* what the theorem needs to know about base64: its alphabet has no newline, no white space, no '-' *)
+  Hypothesis enc_alphabet : forall d, Forall b64char (b64encode d).
+  Hypothesis dec_enc : forall d, b64decode (b64encode d) = Ok d.
+
+  Lemma unpem_topem der name : ~ In nl name -> unpem b64decode (topem b64encode der name) = Ok der.
+  Proof.
+    intro Hname. unfold unpem, topem.
+    set (b64 := b64encode der).
+    pose proof (chunks_forall b64char (length b64) 64 b64 ltac:(lia) (enc_alphabet der)) as HF.
+    pose proof (chunks_concat (length b64) 64 b64 ltac:(lia) (le_n _)) as HC.
+    set (chs := chunks (length b64) 64 b64) in *. clearbody chs.
+    set (pre1 := [ "B"; "E"; "G"; "I"; "N"; " " ]%byte). set (pre2 := [ "E"; "N"; "D"; " " ]%byte).
+    assert (Hh : ~ In nl (dashes5 ++ pre1 ++ name ++ dashes5)).
+    { apply no_nl_label; [|exact Hname]. cbn. intros X. repeat (destruct X as [X|X]; [discriminate|]). exact X. }
+    assert (Hf : ~ In nl (dashes5 ++ pre2 ++ name ++ dashes5)).
+    { apply no_nl_label; [|exact Hname]. cbn. intros X. repeat (destruct X as [X|X]; [discriminate|]). exact X. }
+    set (hdr := dashes5 ++ pre1 ++ name ++ dashes5) in *.
+    set (ftr := dashes5 ++ pre2 ++ name ++ dashes5) in *.
+    replace (dashes5 ++ pre1 ++ name ++ dashes5 ++ [nl]) with (hdr ++ [nl])
+      by (unfold hdr; rewrite <- !app_assoc; reflexivity).
+    replace (dashes5 ++ pre2 ++ name ++ dashes5 ++ [nl]) with (ftr ++ [nl])
+      by (unfold ftr; rewrite <- !app_assoc; reflexivity).
+    assert (Split : split_nl ((hdr ++ [nl]) ++ concat (map (fun l => l ++ [nl]) chs) ++ ftr ++ [nl])
+                    = hdr :: chs ++ [ftr; []]).
+    { rewrite <- app_assoc. cbn [app]. unfold split_nl at 1. rewrite split_nl_aux_line by exact Hh.
+      cbn [rev app]. fold (split_nl (concat (map (fun l => l ++ [nl]) chs) ++ ftr ++ [nl])).
+      rewrite split_nl_lines.
+      - f_equal. f_equal. unfold split_nl. rewrite split_nl_aux_line by exact Hf. reflexivity.
+      - eapply Forall_impl; [|exact HF]. intros c [_ Hc] X.
+        rewrite Forall_forall in Hc. destruct (Hc nl X) as [Hn _]. apply Hn. reflexivity. }
+    rewrite Split.
+    transitivity (b64decode (concat (map strip (filter pem_keep (hdr :: chs ++ [ftr; []]))))); [reflexivity|].
+    assert (Filt : filter pem_keep (hdr :: chs ++ [ftr; []]) = chs).
+    { cbn [filter]. rewrite filter_app. cbn [filter].
+      assert (K1 : pem_keep hdr = false) by reflexivity.
+      assert (K2 : pem_keep ftr = false) by reflexivity.
+      rewrite K1, K2. cbn [pem_keep]. rewrite app_nil_r. apply pem_keep_chunks, HF. }
+    rewrite Filt, (map_strip_chunks chs HF), HC. apply dec_enc.
+  Qed.
+End PemProof.
+
+Lemma vk_pem_roundtrip17 (b64encode : bytes -> bytes) (b64decode : bytes -> result bytes)
+  sqrt_mod order_ok ed_vk r x y pe ce pem :
+  (forall d, Forall b64char (b64encode d)) -> (forall d, b64decode (b64encode d) = Ok d) ->
+  In r wrows -> (pe = Uncompressed \/ pe = Hybrid) -> point_valid order_ok (curve_of_row r) x y ->
+  vk_to_pem b64encode (curve_of_row r) x y pe ce = Ok pem ->
+  vk_from_pem sqrt_mod order_ok ed_vk known_curves b64decode pem None true true = Ok (VkW (curve_of_row r) x y).
+Proof.
+  intros HA HD Hin Hpe PV Hpem. unfold vk_to_pem in Hpem.
+  destruct (vk_to_der (curve_of_row r) x y pe ce) as [d|e] eqn:Ed; [|discriminate].
+  cbn [bind] in Hpem. apply ok_inj in Hpem. subst pem.
+  unfold vk_from_pem. rewrite (unpem_topem b64encode b64decode HA HD).
+  - cbn [bind]. eapply vk_der_roundtrip17; eassumption.
+  - cbn. intros X. repeat (destruct X as [X|X]; [discriminate|]). exact X.
+Qed.
